@@ -176,6 +176,10 @@ class SimKernel:
         self.caller_uid = 0 if self.root else cfg.get("caller_uid", 1000)
         self.keep_snaps = False
         self.snaps = []
+        self.oracle_mode = False
+        self.pins = {}
+        self.watch = ()
+        self.proc_hist = []
         # clocks
         self.mono = float(cfg.get("mono0", 50000.0))
         self.wall_offset = float(cfg.get("wall_offset", 1700000000.25))
@@ -248,6 +252,7 @@ class SimKernel:
         self.slept = 0.0
         self.fault_filter = None
         self.statreads = []
+        self.net_hist = [{n: list(r) for n, r in self.net.items()}]
         self.procstat_reads = []
         self.tabreads = []
         # boot processes
@@ -264,8 +269,50 @@ class SimKernel:
 
     def bump(self):
         self.version += 1
+        if self.watch:
+            import copy
+            self.proc_hist.append((self.version, {
+                pid: copy.deepcopy(self.procs[pid]) for pid in self.watch
+                if pid in self.procs}))
         if self.keep_snaps:
             self.snaps.append((self.version, self.snapshot()))
+
+    def proc_at(self, pid, version):
+        best = None
+        for v, d in self.proc_hist:
+            if v <= version:
+                best = d.get(pid)
+            else:
+                break
+        return best
+
+    def view(self, procs_override=None, pins=None):
+        """Quiet clone for oracle evaluation (no logging, no events)."""
+        import copy
+        ek = copy.copy(self)
+        ek.procs = dict(self.procs)
+        for pid, p in (procs_override or {}).items():
+            if p is None:
+                ek.procs.pop(pid, None)
+            else:
+                ek.procs[pid] = p
+        ek.pins = dict(pins or {})
+        ek.oracle_mode = True
+        ek.sched = None
+        ek.acclog_on = False
+        ek.digest = hashlib.sha256()
+        ek.ctxs = {0: Ctx(0)}
+        ek.cur_thread = 0
+        ek.pending, ek.pending_p, ek.faults, ek.fault_kind = {}, {}, {}, {}
+        ek.timed = []
+        ek.trace = []
+        ek.trace_max = 0
+        ek.effects = []
+        ek.statreads, ek.procstat_reads, ek.tabreads = [], [], []
+        ek.watch = ()
+        ek.keep_snaps = False
+        ek.stats = {}
+        return ek
 
     def snapshot(self):
         """Light copy of the process table for the oracles."""
@@ -317,8 +364,10 @@ class SimKernel:
 
     def _acc(self, kind, arg, pid=None, pidrel=False):
         """Numbered access: fire events, yield, log, inject."""
+        if self.oracle_mode:
+            return
         if self.sched is not None:
-            self.sched.yield_point("acc")
+            self.sched.yield_point("acc", "acc:" + kind)
         c = self.ctxs[self.cur_thread]
         k = c.acc
         c.acc += 1
@@ -390,6 +439,8 @@ class SimKernel:
         return int(round(self.mono * CLK_TCK + 1e-9))
 
     def time_time(self):
+        if self.oracle_mode:
+            return self.now_wall()
         self.clock_reads += 1
         if self.sched is not None:
             self.sched.yield_point("clock")
@@ -397,6 +448,8 @@ class SimKernel:
         return self.now_wall()
 
     def time_monotonic(self):
+        if self.oracle_mode:
+            return self.mono
         self.clock_reads += 1
         if self.sched is not None:
             self.sched.yield_point("clock")
@@ -557,8 +610,16 @@ class SimKernel:
             p = self.procs.get(ev["pid"])
             if p is not None:
                 for k, v in ev["attrs"].items():
-                    if k == "comm" and isinstance(v, str):
+                    if k in ("comm", "cmdline", "environ") and \
+                            isinstance(v, str):
                         v = v.encode("latin-1")
+                        if k == "comm":
+                            v = v[:15]
+                            p.threads[p.pid][0] = v
+                    if k in ("uids", "gids", "ioprio", "ctxsw"):
+                        v = tuple(v)
+                    if k == "state" and p.zombie:
+                        continue
                     setattr(p, k, v)
                 self.bump()
         elif kind == "proc_tick":
@@ -597,6 +658,19 @@ class SimKernel:
         elif kind == "cpu_tick":
             row = self.cpu[ev["cpu"]]
             row[ev["field"]] += ev["n"]
+            self.bump()
+        elif kind == "cpu_add":
+            for c, inc in ev["rows"].items():
+                row = self.cpu[int(c)]
+                for i, n in enumerate(inc):
+                    row[i] += n
+            self.bump()
+        elif kind == "net_add":
+            row = self.net.get(ev["name"])
+            if row is not None:
+                for i, n in enumerate(ev["inc"]):
+                    row[i] += n
+                self.net_hist.append({n: list(r) for n, r in self.net.items()})
             self.bump()
         elif kind == "net_set":
             self.net = {n: list(r) for n, r in ev["table"].items()}
@@ -1003,6 +1077,12 @@ class SimKernel:
         """Content at read time (process may have changed since open)."""
         p = node["p"]
         what = node["what"]
+        if self.pins:
+            pinned = self.pins.get((p.pid, what))
+            if pinned is not None:
+                p = pinned
+                node = dict(node, p=pinned)
+                return self._render_what(node, path, pinned, what)
         live = self.procs.get(p.pid)
         gone = live is None or live.inc != p.inc
         if gone:
@@ -1010,6 +1090,9 @@ class SimKernel:
             if what == "environ":
                 return b""
             raise self._err(errno.ESRCH, path)
+        return self._render_what(node, path, p, what)
+
+    def _render_what(self, node, path, p, what):
         tid = node.get("tid")
         if tid is not None and tid not in p.threads:
             raise self._err(errno.ESRCH, path)
